@@ -36,12 +36,14 @@ PROPS = {
         "level": "proof",
     },
     "C03": {
+        "extra_modules": ["C03b"],
         "gens": [{"name": "C03", "quick": 2500, "thorough": 10000}],
         "nontrivial": {"inexact", "range", "fused-differs", "alias"},
         "rule": ARITH_RULE + "non-trivial = inexact, out of range, differs from Mul-then-Add, or aliased arguments",
         "level": "proof",
     },
     "C04": {
+        "extra_modules": ["C04b"],
         "gens": [{"name": "C04", "quick": 600, "thorough": 6000},
                  {"name": "divrec", "harness": "kernharness", "quick": 500, "thorough": 3000}],
         "needs": ["apiharness", "kernharness"],
@@ -153,11 +155,13 @@ PROPS = {
         "rule": ARITH_RULE + "GobEncode/GobDecode directly and through encoding/gob; hostile payloads: valid encodings truncated at a random length, one bit/byte flipped, extended, attribute byte replaced, a word >= 10^19, zero top word, precision below the digits sent, random bytes; non-trivial = a mutated payload (accepted or rejected), a non-default attribute, or decoding into a receiver with its own precision",
     },
     "C19": {
+        "extra_modules": ["C19b"],
         "gens": [{"name": "C19", "quick": 200, "thorough": 1200}],
         "nontrivial": {"nan", "latched", "had-error", "propagates", "inexact"},
         "rule": ARITH_RULE + "sequences of 3-40 context operations incl. NaN-producing operands, Err() calls and a nil operand (non-NaN panic); non-trivial = step that produces a NaN, runs while an error is latched, reads a recorded error, propagates a foreign panic, or rounds",
     },
     "C20": {
+        "extra_modules": ["C20b"],
         "gens": [{"name": "C20", "quick": 1500, "thorough": 8000}],
         "nontrivial": {"leading-zero-words", "leading-zero-digits", "prec0", "range", "inexact", "mantexp", "setmantexp"},
         "rule": ARITH_RULE + "SetBitsExp on arbitrary word slices (leading zero words/digits, all exponent classes incl. int64 extremes), MantExp/SetMantExp round trips and range edges",
